@@ -438,14 +438,21 @@ def c01_monitor(s, a, rt):
         sends_here = any(rt.act(int(l.split(" ")[3]), int(l.split(" ")[1]))[2] for l in entries if l.startswith("B "))
         if op[0] == "send" and op[1] != 0 and not sends_here and prev_cur != "-":
             out = "ok" if R[2] == "ok" else "err:" + R[3]
+            var = sum(1 for o in s.ops[:i] if o[0] == "add_listener")
             mons.append(f"mon i={i} tid={kv['tid']} pre={tok_of_repr(prev_cur)} ev={op[1]} out={out} "
-                        f"post={tok_of_repr(kv['cur'])}")
+                        f"post={tok_of_repr(kv['cur'])} var={var}")
         prev_cur = kv["cur"]
     if not mons:
         return []
     lines = eng.model_lines(s, kind="c01mon")[:-1] + mons + ["end"]
     res = run_driver(lines).get(s.name, [])
+    global C01_MON_STATS
+    C01_MON_STATS["judged"] += sum(1 for l in res if l.endswith(" ok") or " FAIL " in l)
+    C01_MON_STATS["skipped"] += sum(1 for l in res if " skip " in l)
     return [f"C01: {l}" for l in res if " FAIL " in l] + ([] if len(res) == len(mons) else ["C01: monitor output incomplete"])
+
+
+C01_MON_STATS = {"judged": 0, "skipped": 0}
 
 
 
